@@ -36,10 +36,18 @@ def _worker(job):
     module, fn, shape, opts, alias, seed, idx = job
     t0 = time.time()
     res = dict(task=f"{module}.{fn}", shape=shape, idx=idx)
+    cov = None
     try:
         sys.setrecursionlimit(10000)
         from symx import boot, core, ssp
 
+        if os.environ.get("SYMX_COVER"):
+            # audit aid (tools/cover.sh): which lines of the repository does the symbolic execution reach
+            import coverage
+
+            os.makedirs(os.environ["SYMX_COVER"], exist_ok=True)
+            cov = coverage.Coverage(data_file=os.path.join(os.environ["SYMX_COVER"], f".coverage.{os.getpid()}.{idx}.{module}"), include=[os.path.join(os.environ.get("SYMX_REPO", "/repo"), "pygradflow", "*")])
+            cov.start()
         boot.boot("sym")
         ssp.ALIAS.update(alias)
         mod = importlib.import_module("harness." + module)
@@ -70,6 +78,9 @@ def _worker(job):
         res.setdefault("stats", {})
         res.setdefault("obligations", {})
         res["errors"] = [f"worker died: {type(ex).__name__}: {ex}", traceback.format_exc()[-1500:]]
+    if cov is not None:
+        cov.stop()
+        cov.save()
     res["wall_s"] = time.time() - t0
     return res
 
